@@ -91,10 +91,10 @@ Proof.
 Qed.
 
 (* first-occurrence order: the table is the de-duplicated list of the non-null cells *)
-Lemma filter_filter_comm {A} (p q : A -> bool) l : filter p (filter q l) = filter q (filter p l).
+Lemma filter_filter {A} (p q : A -> bool) l : filter p (filter q l) = filter (fun x => q x && p x) l.
 Proof.
   induction l as [|x l IH]; [reflexivity|]. cbn [filter].
-  destruct (q x) eqn:Q; destruct (p x) eqn:P; cbn [filter]; rewrite ?Q, ?P, IH; reflexivity.
+  destruct (q x) eqn:Q; cbn [filter andb]; [destruct (p x)|]; rewrite IH; reflexivity.
 Qed.
 
 Lemma first_occ_from_spec e : forall cells vals,
@@ -105,14 +105,10 @@ Proof.
   - rewrite app_nil_r. reflexivity.
   - fold (kept_cells e t). destruct (is_nilb c && e) eqn:N; cbn [negb]; [apply IH|].
     cbn [dedup_first filter]. destruct (mem c vals) eqn:M; cbn [negb].
-    + rewrite IH. f_equal. rewrite filter_filter_comm.
-      set (l := filter _ (dedup_first (kept_cells e t))).
-      symmetry. rewrite <- (filter_ext_in (fun _ => true)).
-      * clear. induction l as [|x l IH]; [reflexivity|]. cbn [filter]. rewrite IH. reflexivity.
-      * intros y Hy. unfold l in Hy. apply filter_In in Hy as [_ Hy].
-        destruct (bytes_eqb c y) eqn:E; [|reflexivity]. apply bytes_eqb_spec in E. subst y.
-        rewrite M in Hy. discriminate.
-    + rewrite IH, <- app_assoc. cbn [app]. f_equal. f_equal. rewrite filter_filter_comm.
+    + rewrite IH. f_equal. rewrite filter_filter. apply filter_ext_in. intros y Hy.
+      destruct (bytes_eqb c y) eqn:E; cbn [negb andb]; [|reflexivity].
+      apply bytes_eqb_spec in E. subst y. rewrite M. reflexivity.
+    + rewrite IH, <- app_assoc. cbn [app]. f_equal. f_equal. rewrite filter_filter.
       apply filter_ext. intros y. unfold mem. rewrite existsb_app. cbn [existsb]. rewrite orb_false_r.
       rewrite negb_orb, andb_comm. f_equal. f_equal. apply eq_true_iff_eq.
       split; intros H; apply bytes_eqb_spec in H; subst; apply bytes_eqb_refl.
@@ -121,8 +117,8 @@ Qed.
 Theorem first_occ_spec e cells : first_occ e cells = dedup_first (kept_cells e cells).
 Proof.
   unfold first_occ. rewrite first_occ_from_spec. cbn [app].
-  set (l := dedup_first _). clear. induction l as [|x l IH]; [reflexivity|]. cbn [filter mem existsb negb].
-  rewrite IH. reflexivity.
+  set (l := dedup_first _). clearbody l. induction l as [|x l IH]; [reflexivity|].
+  cbn [filter]. change (mem x []) with false. cbn [negb]. rewrite IH. reflexivity.
 Qed.
 
 Lemma find_last_notin s vals : ~ In s vals -> find_last s vals 0 None = None.
